@@ -726,19 +726,21 @@ impl GremlinTranslator {
                 Ok((plan, Some(alias)))
             }
             ast::Step::Fold => {
+                let alias = "fold".to_string();
                 let plan = LogicalOperator::Aggregate(AggregateOp {
                     group_by: Vec::new(),
                     aggregates: vec![AggregateExpr {
                         function: AggregateFunction::Collect,
                         expression: Some(LogicalExpression::Variable(current_var.to_string())),
                         distinct: false,
-                        alias: Some("fold".to_string()),
+                        alias: Some(alias.clone()),
                         percentile: None,
                     }],
                     input: Box::new(input),
                     having: None,
                 });
-                Ok((plan, None))
+                // the aggregate's output column is the new current element (as for count/sum/...)
+                Ok((plan, Some(alias)))
             }
             ast::Step::Order(modifiers) => {
                 let keys = if modifiers.is_empty() {
